@@ -404,6 +404,7 @@ func c05Check(x *core.Ctx, c *core.Case) {
 			}
 			x.Count("string_kind_sequences_compared")
 		}
+		checkTypeTexts(x, res)
 		if plain := c.Get("plain"); plain != "" {
 			d2, err := parser.ParseQuery(&ast.Source{Name: "plain.graphql", Input: plain})
 			if err != nil {
